@@ -234,6 +234,8 @@ def run_case(case):
         scripts.append(list(sched.used))
         path_sigs.add(_digest([round(u, 12) for u in sched.used]))
         run_viol = []
+        tainted = set()     # variables that currently hold an out-of-type value that arrived in the shape of known finding F3
+        downstream = set()  # violating steps that merely compute with such a value after guard exit
         for st in steps:
             a = st[3]
             name = str(a.variable)
@@ -242,12 +244,27 @@ def run_case(case):
                 observed.add((name, round(val, 9)))
                 if not _member(val, ftypes[name]):
                     run_viol.append(st)
+                    shape = (not st[4], bool(st[6]), str(a.default) != name)
+                    if shape == (True, True, True):
+                        tainted.add(name)
+                    elif st[6] and st[4]:
+                        try:
+                            used = {str(x) for x in a.get_free_symbols(with_condition=False, with_default=False)}
+                        except Exception:  # noqa
+                            used = set()
+                        if used & tainted:
+                            downstream.add((st[0], st[1], st[2]))
+                            tainted.add(name)
+                    continue
+            tainted.discard(name)
         if run_viol:
             # confirmation by the independent exact evaluator with the same resolutions
             conf = _confirm(exact, program, symvals, iters, ctl.log, skipped)
             for st in run_viol:
                 a = st[3]
                 shape = (not st[4], bool(st[6]), str(a.default) != str(a.variable))
+                if (st[0], st[1], st[2]) in downstream:
+                    shape = (True, True, True)
                 shape_counts[shape] = shape_counts.get(shape, 0) + 1
                 if shape_counts[shape] > 2:
                     continue
@@ -258,6 +275,7 @@ def run_case(case):
                     "stmt": st[2], "assignment": str(a), "via_default": not st[4],
                     "default_is_other_var": str(a.default) != str(a.variable),
                     "source_guard_false": bool(st[6]),
+                    "downstream_of_f3": key in downstream,
                     "run": ri,
                 }
                 if c is None:
